@@ -75,17 +75,17 @@ theorem lower_inv {fuel : Nat} {P : Prog} {main : Nat} {ins : List (Nat × Nat)}
           · cases h
 
 theorem run_of_exec (P : Prog) (main : Nat) (fn : Func) (hfn : P[main]? = some fn) (f : Nat) (args : List Nat)
-    (sc : Scope) (vals : List Val) (hlen : args.length = fn.params.length)
+    (sc : Scope) (vals ws : List Val) (hlen : args.length = fn.params.length)
     (hbind : bindParams fn.params ((fn.params.zip args).map fun (p, n) => p.2.decode n) = some sc)
-    (hexec : execB P f fn.body [sc] = some (.returned vals)) (hvl : vals.length = fn.nres) :
-    runRaw P f main args = some (vals.map Val.encode) := by
-  have hrun : run P f main ((fn.params.zip args).map fun (p, n) => p.2.decode n) = some vals := by
+    (hexec : execB P f fn.body [sc] = some (.returned vals)) (hrv : RetVals vals ws) (hvl : ws.length = fn.nres) :
+    runRaw P f main args = some (ws.map Val.encode) := by
+  have hrun : run P f main ((fn.params.zip args).map fun (p, n) => p.2.decode n) = some ws := by
     unfold run
     rw [hfn]
-    simp only [hbind, hexec]
+    simp only [hbind, hexec, packResults_retVals hrv hvl]
     generalize fn.nres = k at hvl ⊢
     subst hvl
-    match vals with
+    match ws with
     | [] => simp [packResults]
     | [r] =>
       cases r with
@@ -137,9 +137,9 @@ theorem lower_sound (fuel : Nat) (P : Prog) (main : Nat) (fn : Func) (hfn : P[ma
       rw [hev'] at hev
       have : lv' = lv := Option.some.inj hev
       subst this
-      have hvl : vals.length = fn.nres := by rw [hrv, ← hmap]; simpa using hrl
+      have hvl : (lv'.map fun p => p.2.decode p.1).length = fn.nres := by rw [← hmap]; simpa using hrl
       refine ⟨fi, ?_⟩
-      rw [run_of_exec P main fn hfn fi args scv vals hlen hbind hex hvl, ← hrun, hrv, ← hmap]
+      rw [run_of_exec P main fn hfn fi args scv vals _ hlen hbind hex hrv hvl, ← hrun, ← hmap]
       simp only [List.map_map, Option.some.injEq]
       apply List.map_congr_left
       intro p hp
